@@ -349,23 +349,17 @@ Proof.
     destruct (n <? zlen f) eqn:E.
     + apply Z.ltb_lt in E.
       destruct (existsb (fun e => n <? e) (t_ends s)) eqn:E1; [discriminate|].
-      destruct (existsb (fun c => fst c + zlen (snd c) <=? n) (f_chunks (t_meta s))) eqn:E2; [discriminate|].
       assert (Hl : forall l, In l (t_iv s) -> tail_end _ l <= n).
       { intros l Hl. destruct (Z_le_dec (tail_end _ l) n); auto. exfalso.
         assert (existsb (fun e => n <? e) (t_ends s) = true).
         { apply existsb_exists. exists (tail_end _ l). split; [unfold t_ends; apply in_map; auto|]. apply Z.ltb_lt. lia. }
         congruence. }
-      assert (Hc : forall c, In c (f_chunks (t_meta s)) -> n < fst c + zlen (snd c)).
-      { intros c Hc. destruct (Z_lt_dec n (fst c + zlen (snd c))); auto. exfalso.
-        assert (existsb (fun c => fst c + zlen (snd c) <=? n) (f_chunks (t_meta s)) = true).
-        { apply existsb_exists. exists c. split; auto. apply Z.leb_le. lia. }
-        congruence. }
       constructor; cbn [t_iv t_tf t_meta t_file f_attr f_chunks]; auto.
       * intros l Hl'. destruct (H4 l Hl'). split; auto.
-      * intros c Hc'. destruct (truncate_chunks_in n _ c Hc') as [c0 [A1 [A2 [A3 A4]]]].
+      * intros c Hc'. destruct (truncate_chunks_in n _ c Hc') as [c0 [A1 [A2 A3]]].
         destruct (H5 c0 A1). split; lia.
       * intros p Hp. rewrite Hget. destruct (p <? n) eqn:E3; [|apply Z.ltb_ge in E3; lia].
-        rewrite cget_truncate by (auto; lia). apply H6. lia.
+        rewrite cget_truncate by lia. apply H6. lia.
     + apply Z.ltb_ge in E.
       apply (tinv_ext _ (pget f)).
       { intros p Hp. rewrite Hget. destruct (p <? n) eqn:E3; auto. apply Z.ltb_ge in E3. lia. }
